@@ -432,6 +432,13 @@ void FileManager::readProperty(std::istream& _iff, MeshT& _mesh) const {
 
 //==================================================
 
+namespace detail {
+/// value-initialised default for properties created by the reader (VectorT's default constructor leaves
+/// its components uninitialised, so T() would be an indeterminate value)
+template <class T> struct ReaderDefault { static T get() { return T(); } };
+template <class Scalar, int DIM> struct ReaderDefault<VectorT<Scalar, DIM>> { static VectorT<Scalar, DIM> get() { return VectorT<Scalar, DIM>(Scalar(0)); } };
+}
+
 template <class PropT, class MeshT>
 void FileManager::generateGenericProperty(const std::string& _entity_t, const std::string& _name,
                                           std::istream& _iff, MeshT& _mesh) const {
@@ -446,31 +453,31 @@ void FileManager::generateGenericProperty(const std::string& _entity_t, const st
     }
 
     if(_entity_t == "vprop") {
-        VertexPropertyT<PropT> prop = _mesh.template request_vertex_property<PropT>(_name);
+        VertexPropertyT<PropT> prop = _mesh.template request_vertex_property<PropT>(_name, detail::ReaderDefault<PropT>::get());
         prop.deserialize(_iff);
         _mesh.set_persistent(prop);
     } else if(_entity_t == "eprop") {
-        EdgePropertyT<PropT> prop = _mesh.template request_edge_property<PropT>(_name);
+        EdgePropertyT<PropT> prop = _mesh.template request_edge_property<PropT>(_name, detail::ReaderDefault<PropT>::get());
         prop.deserialize(_iff);
         _mesh.set_persistent(prop);
     } else if(_entity_t == "heprop") {
-        HalfEdgePropertyT<PropT> prop = _mesh.template request_halfedge_property<PropT>(_name);
+        HalfEdgePropertyT<PropT> prop = _mesh.template request_halfedge_property<PropT>(_name, detail::ReaderDefault<PropT>::get());
         prop.deserialize(_iff);
         _mesh.set_persistent(prop);
     } else if(_entity_t == "fprop") {
-        FacePropertyT<PropT> prop = _mesh.template request_face_property<PropT>(_name);
+        FacePropertyT<PropT> prop = _mesh.template request_face_property<PropT>(_name, detail::ReaderDefault<PropT>::get());
         prop.deserialize(_iff);
         _mesh.set_persistent(prop);
     } else if(_entity_t == "hfprop") {
-        HalfFacePropertyT<PropT> prop = _mesh.template request_halfface_property<PropT>(_name);
+        HalfFacePropertyT<PropT> prop = _mesh.template request_halfface_property<PropT>(_name, detail::ReaderDefault<PropT>::get());
         prop.deserialize(_iff);
         _mesh.set_persistent(prop);
     } else if(_entity_t == "cprop") {
-        CellPropertyT<PropT> prop = _mesh.template request_cell_property<PropT>(_name);
+        CellPropertyT<PropT> prop = _mesh.template request_cell_property<PropT>(_name, detail::ReaderDefault<PropT>::get());
         prop.deserialize(_iff);
         _mesh.set_persistent(prop);
     } else if(_entity_t == "mprop") {
-        MeshPropertyT<PropT> prop = _mesh.template request_mesh_property<PropT>(_name);
+        MeshPropertyT<PropT> prop = _mesh.template request_mesh_property<PropT>(_name, detail::ReaderDefault<PropT>::get());
         prop.deserialize(_iff);
         _mesh.set_persistent(prop);
     }
